@@ -254,3 +254,82 @@ theorem dsp_display_fraction (alt : Bool) (w n d : Nat) (e : Rat) :
       else (fracForm false w n d).render.toList ++ errSuffix alt e := by
   simp only [Number.display, rat_eq, rat_ofNat, decide_eq_true_eq]
   rfl
+
+/-! ### the f64 printer of the model: what its digits read back as -/
+
+theorem dsp_stripZeros_value (c j : Nat) :
+    ((stripZeros c j).1 : Rat) / ((10 ^ (stripZeros c j).2 : Nat) : Rat)
+      = (c : Rat) / ((10 ^ j : Nat) : Rat) := by
+  induction j generalizing c with
+  | zero => rfl
+  | succ j ih =>
+    unfold stripZeros
+    split
+    · rename_i h0
+      rw [ih]
+      have hc : c = 10 * (c / 10) := by omega
+      have hp : ((10 ^ j : Nat) : Rat) ≠ 0 := by
+        have : (10 ^ j : Nat) ≠ 0 := Nat.ne_of_gt (dsp_pow_pos j)
+        exact_mod_cast this
+      have h1 : (c : Rat) = 10 * ((c / 10 : Nat) : Rat) := by
+        have : ((10 * (c / 10) : Nat) : Rat) = (c : Rat) := by rw [← hc]
+        rw [← this]; simp [Rat.natCast_mul]
+      have h2 : ((10 ^ (j + 1) : Nat) : Rat) = ((10 ^ j : Nat) : Rat) * 10 := by
+        rw [Nat.pow_succ]; simp [Rat.natCast_mul]
+      rw [h1, h2]
+      generalize ((c / 10 : Nat) : Rat) = a
+      generalize ((10 ^ j : Nat) : Rat) = p at hp
+      grind
+    · rfl
+
+/-- the numeral `decimalText c s` denotes `c · 10^(-s)` -/
+theorem dsp_read_decimalText (c : Nat) (s : Int) :
+    readUDecimal (decimalText c s) =
+      some (if s ≤ 0 then ((c * 10 ^ (-s).toNat : Nat) : Rat) else (c : Rat) / ((10 ^ s.toNat : Nat) : Rat)) := by
+  unfold decimalText
+  split
+  · simp only [readUDecimal, dsp_readNat_nil]
+  · rw [dsp_read_fixed, dsp_stripZeros_value]
+
+/-- every result of the digit search reads back (by the correctly rounded parser of Basic/Decimal.lean)
+    as the f64 that was printed — unless the search ran out of fuel, in which case the result sits at
+    digit position `n + fuel` -/
+theorem dsp_shortestFrom_roundtrip (mb : UInt64) (num den : Nat) (k : Int) (fuel n : Nat) :
+    bitsOfDecimal (shortestFrom mb num den k fuel n).1 (shortestFrom mb num den k fuel n).2 = mb ∨
+    (shortestFrom mb num den k fuel n).2 = ((n + fuel : Nat) : Int) - k := by
+  induction fuel generalizing n with
+  | zero => right; simp [shortestFrom]
+  | succ fuel ih =>
+    unfold shortestFrom
+    simp only
+    split
+    · rename_i h
+      simp only [Bool.and_eq_true, beq_iff_eq] at h
+      left; exact h.1
+    · split
+      · rename_i h
+        simp only [beq_iff_eq] at h
+        left; exact h
+      · have := ih (n + 1)
+        rcases this with h | h
+        · left; exact h
+        · right; rw [h]; congr 2; omega
+
+/-- numerator / denominator of the exact value of the finite f64 with bit pattern `b` (as `f64Text`
+    decodes it: mantissa `m`, exponent `e`, value `m · 2^e`) -/
+def f64Mant (b : Nat) : Nat := if (b / 2 ^ 52) % 2048 = 0 then b % 2 ^ 52 else 2 ^ 52 + b % 2 ^ 52
+def f64Exp (b : Nat) : Int := if (b / 2 ^ 52) % 2048 = 0 then -1074 else (((b / 2 ^ 52) % 2048 : Nat) : Int) - 1075
+def f64Num (b : Nat) : Nat := if f64Exp b ≥ 0 then f64Mant b * 2 ^ (f64Exp b).toNat else f64Mant b
+def f64Den (b : Nat) : Nat := if f64Exp b ≥ 0 then 1 else 2 ^ (-(f64Exp b)).toNat
+
+/-- `f64Text` on a finite non-zero number: sign, then the layout of the digits the search returns -/
+theorem dsp_f64Text_finite (plus : Bool) (x : Float)
+    (hfin : (x.toBits.toNat / 2 ^ 52) % 2048 ≠ 2047)
+    (hnz : ¬ ((x.toBits.toNat / 2 ^ 52) % 2048 = 0 ∧ x.toBits.toNat % 2 ^ 52 = 0)) :
+    f64Text plus x = signText (decide (x.toBits.toNat / 2 ^ 63 = 1)) plus ++
+      decimalText
+        (shortestDigits (UInt64.ofNat (x.toBits.toNat % 2 ^ 63)) (f64Num x.toBits.toNat) (f64Den x.toBits.toNat)).1
+        (shortestDigits (UInt64.ofNat (x.toBits.toNat % 2 ^ 63)) (f64Num x.toBits.toNat) (f64Den x.toBits.toNat)).2 := by
+  unfold f64Text
+  simp only [if_neg hfin, if_neg hnz]
+  rfl
